@@ -34,6 +34,14 @@ def observe(s, names):
     return obs
 
 
+def all_names(s):
+    """Names of all scalars and arrays that exist in the session (arrays as NAME( )."""
+    impl = s._impl
+    names = sorted(n.decode('latin-1') for n in impl.scalars)
+    names += sorted(n.decode('latin-1') + '(' for n in impl.arrays._buffers)
+    return names
+
+
 def continue_run(s, budget):
     """Continue a resumed (or fresh) session until control returns; returns (output, exit?)."""
     st = harness.attach_stepper(s, harness.Stepper(budget=budget, wait_budget=50, clock=harness.shared_clock()))
